@@ -893,3 +893,84 @@ pub fn cmd_gen(args: &[String]) -> io::Result<()> {
     }
     out.flush()
 }
+
+
+// ------------------------------------------------------------------------------------------------
+// G10: adversarial large inputs — cost measurement (C20).  Rust side only; judged by ./check against
+// the bounds proved in Lean (travel <= length) and by the growth of the best-of-N time between two sizes.
+
+fn fill_to(mut s: Vec<u8>, unit: &[u8], n: usize, tail: &[u8]) -> Vec<u8> {
+    while s.len() + unit.len() + tail.len() <= n {
+        s.extend_from_slice(unit);
+    }
+    s.extend_from_slice(tail);
+    s
+}
+
+pub fn cost_families(n: usize) -> Vec<(&'static str, &'static str, u32, Vec<u8>)> {
+    let rq = b"GET / HTTP/1.1\r\n".to_vec();
+    let rs = b"HTTP/1.1 200 OK\r\n".to_vec();
+    let mut v: Vec<(&'static str, &'static str, u32, Vec<u8>)> = Vec::new();
+    let mut a = rs.clone(); a.extend_from_slice(b"A: b\r\n");
+    v.push(("folds-in-one-value", "resp", 2, fill_to(a, b" c\r\n", n, b"\r\n")));
+    let mut a = rs.clone(); a.extend_from_slice(b"A:");
+    v.push(("folds-before-value", "resp", 2, fill_to(a, b"\r\n ", n, b"v\r\n\r\n")));
+    v.push(("ignored-short-lines-resp", "resp", 32, fill_to(rs.clone(), b":\n", n, b"\r\n")));
+    v.push(("ignored-short-lines-req", "req", 64, fill_to(rq.clone(), b":\n", n, b"\r\n")));
+    v.push(("ignored-long-lines", "req", 64, fill_to(rq.clone(), b"bad line with some text in it and no colon at all\r\n", n, b"\r\n")));
+    let mut a = rq.clone(); a.extend_from_slice(b"A:");
+    v.push(("whitespace-after-colon", "req", 0, fill_to(a, b" ", n, b"v\r\n\r\n")));
+    let mut a = rs.clone(); a.extend_from_slice(b"A");
+    v.push(("whitespace-after-name", "resp", 1, fill_to(a, b" ", n, b":v\r\n\r\n")));
+    v.push(("leading-whitespace", "req", 16, fill_to(rq.clone(), b"\t", n, b"A: b\r\n\r\n")));
+    let mut a = rq.clone(); a.extend_from_slice(b"A: v");
+    v.push(("tabs-in-value(swar-near-miss)", "req", 0, fill_to(a, b"\t", n, b"\r\n\r\n")));
+    let mut a = rq.clone(); a.extend_from_slice(b"A: v");
+    v.push(("obs-text-value", "req", 0, fill_to(a, b"\xff\x80", n, b"\r\n\r\n")));
+    let mut a = rq.clone(); a.extend_from_slice(b"A: v");
+    v.push(("trailing-whitespace-value", "req", 0, fill_to(a, b" ", n, b"\r\n\r\n")));
+    v.push(("many-small-headers", "req", 0, fill_to(rq.clone(), b"a:b\r\n", n, b"\r\n")));
+    v.push(("long-target", "req", 0, fill_to(b"GET /".to_vec(), b"a", n, b" HTTP/1.1\r\n\r\n")));
+    v.push(("long-reason", "resp", 0, fill_to(b"HTTP/1.1 200 ".to_vec(), b"r", n, b"\r\n\r\n")));
+    v.push(("leading-empty-lines", "req", 0, fill_to(Vec::new(), b"\r\n", n, b"GET / HTTP/1.1\r\n\r\n")));
+    v.push(("multi-spaces", "req", 4, fill_to(b"GET ".to_vec(), b" ", n, b"/ HTTP/1.1\r\n\r\n")));
+    v.push(("partial-folds", "resp", 2, fill_to(rs.clone(), b"A: b\r\n c\r\n", n, b"")));
+    v.push(("chunk-extension", "chunk", 0, fill_to(b"1f;".to_vec(), b"x", n, b"\r\n")));
+    v
+}
+
+pub fn cmd_cost(args: &[String]) {
+    use std::time::Instant;
+    let small: usize = args.get(0).and_then(|s| s.parse().ok()).unwrap_or(32 * 1024);
+    let factor: usize = args.get(1).and_then(|s| s.parse().ok()).unwrap_or(8);
+    let reps: usize = args.get(2).and_then(|s| s.parse().ok()).unwrap_or(7);
+    for size in [small, small * factor] {
+        for (name, kind, cfg, buf) in cost_families(size) {
+            let cap = buf.iter().filter(|&&b| b == b'\n').count() + 2;
+            let config = crate::mk_config(cfg);
+            let mut headers = vec![httparse::EMPTY_HEADER; if kind == "chunk" { 0 } else { cap }];
+            let mut best = u128::MAX;
+            let mut status = String::new();
+            let mut counters = String::new();
+            for _ in 0..reps {
+                crate::counters_reset();
+                let t0 = Instant::now();
+                status = match kind {
+                    "req" => {
+                        let mut r = httparse::Request::new(&mut headers);
+                        format!("{:?}", config.parse_request(&mut r, &buf).map(|s| s.is_complete()))
+                    }
+                    "resp" => {
+                        let mut r = httparse::Response::new(&mut headers);
+                        format!("{:?}", config.parse_response(&mut r, &buf).map(|s| s.is_complete()))
+                    }
+                    _ => format!("{:?}", httparse::parse_chunk_size(&buf).map(|s| s.is_complete())),
+                };
+                let dt = t0.elapsed().as_nanos();
+                if dt < best { best = dt; }
+                counters = crate::counters_str();
+            }
+            println!("cost {} {} cfg={} size={} ns={} {} status={}", name, kind, cfg, buf.len(), best, counters, status.replace(' ', ""));
+        }
+    }
+}
